@@ -328,7 +328,7 @@ def splice_fn(text, spl, name, log):
             # body dropped: trusted
             log.append({"rule": "EXTERNAL_BODY", "in": name, "before": sha(text[ct[body_open].start:ct[body_close].end]), "after": "unimplemented!()"})
             pre = text[:ct[body_open].start]
-            out = apply_inserts(pre, [(o, s) for o, s in inserts if o <= len(pre)])
+            out = apply_inserts(pre, [x for x in inserts if x[0] <= len(pre)])
             return (spl.get("attr", "") + "#[verifier::external_body]\n" + out + "{ unimplemented!() }")
         head = spl.get("head", "")
         if head.strip():
@@ -365,6 +365,16 @@ def splice_fn(text, spl, name, log):
                     raise LostAnchor(f"fn {name}: for-loop {k} without `in`")
                 inserts.append((ct[pos_in].end, f" {lsp['iter']}:"))
                 log.append({"rule": "R8", "in": name, "before": "for P in E", "after": f"for P in {lsp['iter']}: E"})
+                if lsp.get("itercall"):
+                    # R16: E is `&C` / a `&C`-typed expression for a std collection C: `<&C as IntoIterator>::into_iter`
+                    # is `C::iter` (std); vstd models `iter()` but not the reference's IntoIterator impl
+                    first = ct[pos_in + 1]
+                    if first.kind == "punct" and first.text == "&":
+                        inserts.append((first.start, "("))
+                        inserts.append((ct[lo - 1].end, ").iter()", 0))
+                    else:
+                        inserts.append((ct[lo - 1].end, ".iter()", 0))
+                    log.append({"rule": "R16", "in": name, "before": "for P in E   (E: &Collection)", "after": "for P in E.iter()"})
         ntail = spl.get("tail", "")
         if ntail.strip():
             raise LostAnchor("tail splice unsupported")
@@ -375,10 +385,11 @@ def splice_fn(text, spl, name, log):
 
 
 def apply_inserts(text, inserts):
-    inserts = sorted(inserts, key=lambda x: x[0])
+    inserts = sorted(inserts, key=lambda x: (x[0], x[2] if len(x) > 2 else 1))
     out = []
     pos = 0
-    for off, s in inserts:
+    for ins in inserts:
+        off, s = ins[0], ins[1]
         out.append(text[pos:off])
         out.append(s)
         pos = off
@@ -611,6 +622,11 @@ class Unit:
                 d = spl["loops"].setdefault(k, {})
                 if what == "iter":
                     d["iter"] = words[3]
+                    i += 1
+                elif what == "itercall":
+                    # rule R16: `for P in E` -> `for P in E.iter()` / `for P in (&E).iter()`-free form: the iterated
+                    # expression is a REFERENCE to a std collection, whose IntoIterator impl is `self.iter()`
+                    d["itercall"] = True
                     i += 1
                 else:
                     p, j = self.payload(tl, i)
